@@ -1076,6 +1076,16 @@ class Compiler:
                 self.scopes.pop()
                 return stmts
 
+            def visit_FunctionDef(self, node) -> ast.AST:
+                # a function (slot filler) writes to the stream it is
+                # passed, not to that of the translation block it
+                # happens to be defined in
+                self.scopes.append(TranslationContext())
+                try:
+                    return self.generic_visit(node)
+                finally:
+                    self.scopes.pop()
+
             def visit_TokenRef(self, node: TokenRef) -> ast.AST:
                 self.tokens.append((node.token.pos, len(node.token)))
                 assignment = ast.Assign(
@@ -1786,7 +1796,10 @@ class Compiler:
 
             self._current_slot.append(slot.name)
 
-            body = self.visit_Context(slot)
+            # the filler writes to the stream it is handed (which is
+            # not the caller's, e.g. inside a translation block)
+            body = template("__append = __stream.append") + \
+                self.visit_Context(slot)
 
             assert self._current_slot.pop() == slot.name
 
